@@ -1,6 +1,49 @@
 import Heathcliff.Model.Evaluator
+import Heathcliff.Proofs.C07L
 namespace HC.C05
 /-- the level walk of `mod_switch_to` / `rescale_to` refuses upward targets -/
 theorem switch_up_refused {cur tgt : Nat} (h : cur < tgt) : switchSteps cur tgt = .error .refused := by
   unfold switchSteps; simp [h]
+
+/-- the level walk visits exactly the levels cur-1, …, tgt (so it ends on the requested level) and has cur - tgt steps:
+    termination is by construction (structural recursion over `List.range`) -/
+theorem switch_steps {cur tgt : Nat} (h : tgt ≤ cur) :
+    ∃ l, switchSteps cur tgt = .ok l ∧ l.length = cur - tgt ∧ (cur ≠ tgt → l.getLast? = some tgt) := by
+  refine ⟨(List.range (cur - tgt)).map (fun i => cur - 1 - i), ?_, by simp, ?_⟩
+  · unfold switchSteps; rw [if_neg (by omega)]; rfl
+  · intro hne
+    have hpos : 0 < cur - tgt := by omega
+    obtain ⟨k, hk⟩ : ∃ k, cur - tgt = k + 1 := ⟨cur - tgt - 1, by omega⟩
+    rw [hk, List.range_succ, List.map_append, List.map_singleton, List.getLast?_append, List.getLast?_singleton]
+    simp; omega
+
+
+/-- BFV: dividing the phase by q_L with rounding keeps round(t·x/Q): if t·x = Q·m + ν with Q = Q'·q_L and
+    x' = (x + δ)/q_L·… precisely x' = x/q_L + ε with 2|ε|·… we state it on integers: x = q_L·x' + ρ, |ρ| ≤ q_L·E
+    (E bounds the accumulated rounding of the ciphertext polynomials), then t·x' = Q'·m + ν' with |ν'| ≤ |ν|/q_L + t·E + 1 -/
+theorem bfv_switch_noise {t Q' qL : Nat} (hq : 0 < qL) {x x' m ν ρ : Int} {E : Nat}
+    (h : t * x = (Q' * qL : Nat) * m + ν) (hx : x = qL * x' + ρ) (hρ : ρ.natAbs ≤ qL * E) :
+    ∃ ν' : Int, t * x' = Q' * m + ν' ∧ ν'.natAbs * qL ≤ ν.natAbs + t * qL * E := HC.bfv_switch_noise hq h hx hρ
+
+/-- hence the decrypted message is unchanged as long as the new noise is below the new threshold -/
+theorem bfv_switch_message {t Q' qL : Nat} (hq : 0 < qL) (hQ' : 0 < Q') {x x' m ν ρ : Int} {E : Nat}
+    (h : t * x = (Q' * qL : Nat) * m + ν) (hx : x = qL * x' + ρ) (hρ : ρ.natAbs ≤ qL * E)
+    (hsmall : 2 * (ν.natAbs + t * qL * E) < Q' * qL) :
+    Spec.roundDiv (t * x') Q' = m := HC.bfv_switch_message hq hQ' h hx hρ hsmall
+
+/-- BGV: x' = (x + δ)/q_L with δ ≡ −x (mod q_L), δ ≡ 0 (mod t) gives x' ≡ q_L^{-1}·x (mod t); with the new correction
+    factor f' = f·q_L^{-1} the decoded message f'^{-1}·x' ≡ f^{-1}·x is unchanged -/
+theorem bgv_switch_message {t qL : Nat} {x x' δ f f' m iq : Int}
+    (hδt : δ ≡ 0 [ZMOD t]) (hdiv : x + δ = qL * x') (hiq : iq * qL ≡ 1 [ZMOD t])
+    (hf' : f' ≡ f * iq [ZMOD t]) (hm : x ≡ f * m [ZMOD t]) :
+    x' ≡ f' * m [ZMOD t] := HC.bgv_switch_message hδt hdiv hiq hf' hm
+
+/-- CKKS drop: the residues are a prefix, so the phase is the same integer polynomial modulo the smaller product -/
+theorem ckks_drop_phase {Q' qL : Nat} (x : Int) : (x % ((Q' * qL : Nat) : Int)) % (Q' : Int) = x % (Q' : Int) := HC.ckks_drop_phase x
+
+/-- CKKS rescale: |x' − x/q_L| ≤ E when x = q_L·x' + ρ, |ρ| ≤ q_L·E (exact integers) -/
+theorem ckks_rescale_error {qL : Nat} (hq : 0 < qL) {x x' ρ : Int} {E : Nat} (hx : x = qL * x' + ρ) (hρ : ρ.natAbs ≤ qL * E) :
+    (x' * qL - x).natAbs ≤ qL * E := HC.ckks_rescale_error hq hx hρ
+
+
 end HC.C05
